@@ -333,6 +333,9 @@ CONTRACTS = [
 from contracts import c11_rawkeys as RKY
 CONTRACTS += [Contract('raw_key_resolution', ['pony.orm.core:EntityMeta._get_by_raw_pkval_', 'pony.orm.core:EntityMeta.__getitem__', 'pony.orm.core:EntityMeta._get_from_identity_map_', 'pony.orm.core:unpickle_entity'],
                        RKY.configs, RKY.case, [('every_way_of_reaching_a_row_hands_out_the_same_object_with_its_own_key', RKY.spec)], level='bounded', bound=RKY.BOUND)]
+CONTRACTS += [Contract('key_of_a_key_given_raw', ['pony.orm.core:EntityMeta._get_by_raw_pkval_', 'pony.orm.core:Attribute.validate', 'pony.orm.core:EntityMeta._normalize_args_'],
+                       RKY.kk_configs, RKY.kk_case, [('one_object_per_row_whatever_the_spelling_of_the_raw_key', RKY.spec)], level='bounded', bound=RKY.BOUND_KK)]
+
 
 from contracts import c13 as _c13
 # a refused / failed modification must leave the session as it was - identity map, key indexes, save queue and statuses included (contracted under C13 and shared here:
